@@ -349,7 +349,79 @@ def g_hugechurn(t, n):
     t.emit("W", 0)
 
 
-PROFILES = {"hugechurn": g_hugechurn, "boundary": g_boundary, "fillfree": g_fillfree, "span": g_span, "aligned": g_aligned, "realloc": g_realloc,
+def g_scatter(t, n):
+    """one whole 32 MiB segment is filled with small (8 x 8 KiB), medium (8 x 64 KiB) and large pages; then whole pages are freed at
+    slice positions biased to the 64-bit word boundaries of the commit mask (62..65, 126..129, ...) and otherwise anywhere, so that the
+    pending purge mask of the segment has runs in several words, in both orders of bit position, runs that end at bit 63 / start at
+    bit 0 / cross a boundary, with pages in use in between; the purge delay passes (CLK) and ordinary activity follows (page frees,
+    page allocations, non-forced collects); COL/W verify the contents of every live block.  `n` is ignored (the fill needs ~2500 ops).
+    The slice positions are estimates (pages of a fresh segment are carved in address order)."""
+    r = t.r
+    pages = []          # [estimated first slice, slices, slots]
+    est = 1
+    goal = 500 + r.randrange(40)
+    while est < goal and len(t.live) < 3500:
+        k = r.random()
+        if k < 0.5:
+            for _ in range(1 + r.randrange(r.choice([12, 12, 70]))):
+                if len(t.live) > 3500: break
+                ss = [t.alloc(kind="M", size=8192, heap=0) for _ in range(8)]
+                pages.append([est, 1, [x for x in ss if x is not None]]); est += 1
+        elif k < 0.7:
+            for _ in range(1 + r.randrange(3)):
+                ss = [t.alloc(kind="M", size=65536, heap=0) for _ in range(8)]
+                pages.append([est, 8, [x for x in ss if x is not None]]); est += 8
+        else:
+            for _ in range(1 + r.randrange(3)):
+                size = r.randrange(600000, 1500000) if r.random() < 0.33 else r.randrange(70000, 470000)
+                nsl = -(-size // 65536) if size <= 524288 else -(-size // 524288) * 8
+                x = t.alloc(kind="M", size=size, heap=0)
+                pages.append([est, nsl, [x] if x is not None else []]); est += nsl
+
+    def page_at(sl):
+        for pg in pages:
+            if pg[0] <= sl < pg[0] + pg[1] and pg[2]: return pg
+        return None
+
+    def free_page(pg):
+        for x in pg[2]: t.free(x, "F")
+        pg[2] = []
+
+    def activity():
+        k = r.random()
+        live_pages = [pg for pg in pages if pg[2]]
+        if k < 0.45 and len(live_pages) > 3:
+            free_page(r.choice(live_pages))                       # a page free in the segment
+        elif k < 0.8:
+            t.alloc(kind="M", size=r.choice([4096, 2048, 6144, 32768, 49152, 200000, 8192, 65536]), heap=0)   # (often) a page allocation
+        else:
+            t.emit("COL", 0)
+
+    for cycle in range(3):
+        nv = r.choice([2, 2, 2, 3, 3, 4, 5, 6, 8, 12])
+        for _ in range(nv):
+            sl = (1 + r.randrange(7)) * 64 + r.randrange(4) - 2 if r.random() < 0.5 else 1 + r.randrange(511)
+            pg = page_at(sl)
+            if pg is None: continue
+            nb = page_at(pg[0] + pg[1]) if r.random() < 0.5 else page_at(pg[0] - 1)
+            free_page(pg)
+            if nb is not None and r.random() < 0.33: free_page(nb)    # sometimes the neighbour too: a run that crosses the boundary
+        t.emit("COL", 0)                                             # retired pages are freed; contents verified
+        if r.random() < 0.5:
+            t.emit("CLK", r.choice([1, 5, 9])); activity()
+        t.emit("CLK", r.choice([12, 30, 150, 1001]))                 # past the delays of the option matrix (10, 100) and their extensions
+        for _ in range(1 + r.randrange(3)): activity()
+        t.emit("COL", 0)
+        if r.random() < 0.5:
+            t.emit("CLK", r.choice([150, 1001])); activity(); t.emit("W", 0)
+        # re-use: new pages of the main classes go into the holes (the pending purge bits of re-used slices must be cleared)
+        for _ in range(r.randrange(4)):
+            ss = [t.alloc(kind="M", size=r.choice([8192, 65536]), heap=0) for _ in range(8)]
+        t.emit("CLK", r.choice([5, 12, 150])); activity(); t.emit("COL", 0)
+    t.emit("W", 0)
+
+
+PROFILES = {"scatter": g_scatter, "hugechurn": g_hugechurn, "boundary": g_boundary, "fillfree": g_fillfree, "span": g_span, "aligned": g_aligned, "realloc": g_realloc,
             "heaps": g_heaps, "malformed": g_malformed, "huge": g_huge}
 
 
